@@ -17,14 +17,48 @@ func (b *BlockRecord) allowWrapped(prev *AbsState) map[string]int64 {
 		if !completed(t) || (existed && completed(p)) {
 			continue
 		}
-		yes := 0
-		for _, v := range t.Votes {
-			if v == 1 {
-				yes++
+		// witness finality is judged on the votes: those recorded before the block plus the
+		// reports accepted in it (a settled record no longer carries its votes)
+		votes := append([]int64{}, p.Votes...)
+		wits := p.Wits
+		if !existed || len(wits) == 0 {
+			wits = b.witnessOrder
+			votes = make([]int64, len(wits))
+		}
+		for _, tx := range b.Txs {
+			if !accepted(tx) || tx.Req.Kind != "ETH_REPORT" {
+				continue
+			}
+			if ExtKey(tx.Req.S("tkind"), tx.Req.S("towner"), tx.Req.I("tamt"), tx.Req.I("tn")) != n {
+				continue
+			}
+			idx := tx.Req.I("idx")
+			if _, given := tx.Req.A["idx"]; !given {
+				idx = -1
+				for i, w := range wits {
+					if w == tx.Req.S("by") {
+						idx = int64(i)
+					}
+				}
+			}
+			if idx >= 0 && int(idx) < len(wits) && wits[idx] == tx.Req.S("by") && votes[idx] == 0 {
+				if tx.Req.I("ok") != 0 {
+					votes[idx] = 1
+				} else {
+					votes[idx] = 2
+				}
 			}
 		}
-		success := t.Store == "passed" || (t.Store == "ongoing" && yes >= len(t.Wits)*2/3+1)
-		if (t.Type == "lock" && success) || (t.Type == "redeem" && !success) {
+		yes, no := 0, 0
+		for _, v := range votes {
+			if v == 1 {
+				yes++
+			} else if v == 2 {
+				no++
+			}
+		}
+		th := len(wits)*2/3 + 1
+		if (t.Type == "lock" && yes >= th) || (t.Type == "redeem" && no >= th) {
 			out["ETH"] += t.Amt
 		}
 	}
